@@ -212,12 +212,12 @@ func compile(patterns []string, mode Mode) (*regexp.Regexp, error) {
 			case utf8.RuneError:
 				b.WriteString(pat[:w])
 			case '?':
-				b.WriteByte('.')
+				b.WriteString("(?s:.)")
 			case '*':
 				if mode&Smallest == 0 || mode&Largest != 0 {
-					b.WriteString(".*")
+					b.WriteString("(?s:.*)")
 				} else {
-					b.WriteString(".*?")
+					b.WriteString("(?s:.*?)")
 				}
 			case '[':
 				b.WriteByte('[')
